@@ -87,6 +87,14 @@ Theorem C34_solver_shift :
     (~ (sigma == 0)%Q -> ~ (reported_eigenvalue 0 sigma lam == lam)%Q).
 Proof. intros; split; [apply shift_consistent | apply shift_inconsistent]. Qed.
 
+(* SLQ order: a requested order that reaches the dimension of the operator is clamped to exactly that
+   dimension (never below it), so the Krylov space can be exhausted and the quadrature can be exact *)
+Theorem C34_slq_order_clamp :
+  forall requested op_size : nat,
+    clamp_order requested op_size = Nat.min requested op_size /\
+    ((op_size <= requested)%nat -> clamp_order requested op_size = op_size).
+Proof. exact clamp_order_spec. Qed.
+
 (* non-vacuity: a resumed and a fresh schedule (the Lanczos hypotheses are exercised with Q^n and
    generated SPD matrices by the correspondence on every check run) *)
 Example C34_batches_example : batches 7 3 4 = [1; 2]%nat /\ batches 7 3 0 = [3; 2; 2]%nat.
